@@ -3,11 +3,7 @@ PROP = dict(
         tie_coq=["Properties/TieC06.v"],
         workloads=[
             dict(name="amm-pure", go_test="TestC06Pure", runner="C06",
-<<<<<<< HEAD
-                 env=dict(quick=dict(VERIF_CASES=4000, VERIF_SMALL=4), thorough=dict(VERIF_CASES=40000, VERIF_SMALL=10))),
-=======
-                 env=dict(quick=dict(VERIF_CASES=3000, VERIF_SMALL=4), thorough=dict(VERIF_CASES=60000, VERIF_SMALL=12))),
->>>>>>> liq2
+                 env=dict(quick=dict(VERIF_CASES=3000, VERIF_SMALL=4), thorough=dict(VERIF_CASES=40000, VERIF_SMALL=10))),
             dict(name="amm-sequences", go_test="TestC06Seq", runner="C06",
                  env=dict(quick=dict(VERIF_CASES=170), thorough=dict(VERIF_CASES=5000))),
             dict(name="amm-ranged", go_test="TestC06Ranged", runner="C06",
